@@ -10,7 +10,7 @@ from hypothesis import strategies as st
 
 from .. import arr as A
 from .. import unit as U
-from ..core import peek, sstr, Failure, drive
+from ..core import peek, sstr, Failure, drive, drive_enum
 from ..gen import models as M
 from ..ref import commands as R
 
@@ -207,15 +207,72 @@ def check_model(model, rec):
 
 
 @st.composite
-def model_cases(draw):
-    model = draw(M.typed_models())
+def model_cases(draw, cmds=None):
+    model = draw(M.typed_models(cmds=cmds))
     model["order2"] = list(draw(st.permutations(list(range(len(model["nodes"]))))))
     model["extra_on"] = draw(st.integers(0, 20))
     return model
 
 
-PARTS = {"model": check_model}
+# ------------------------------------------------------------------------------------ long models
+
+DEEP_LINKS = ["Copy(InFieldName = %s)", "Sum(InFieldNames = [%s])", "Maximum(InFieldNames = [%s])", "Mean(InFieldNames = [%s])",
+              "Minimum(InFieldNames = [%s, %s])", "AMinusB(A = %s, B = Zero)", "WeightedSum(InFieldNames = [%s, Zero], Weights = [1, 5])"]
+
+
+def deep_cases(ctx):
+    for n in ((60, 450) if ctx.quick else (60, 450, 1500)):
+        for links in ("direct", "list", "mixed"):
+            for order in ("forward", "reversed", "shuffled"):
+                yield {"n": n, "links": links, "order": order}
+
+
+def check_deep(case, rec):
+    """A long chain of commands each of which passes its input on unchanged (Copy, one-input Sum / Maximum / Mean,
+    Minimum of the same input twice, minus zero, weighted sum with a zero column): every result equals the column read,
+    in any order of the commands in the file."""
+    import random
+
+    n = case["n"]
+    use = {"direct": [0, 5], "list": [1, 2, 3, 4, 6], "mixed": list(range(len(DEEP_LINKS)))}[case["links"]]
+    lines = ['In = EEMSRead(InFileName = "input.csv", InFieldName = "a", MissingVal = -9999)',
+             "Zero = AMinusB(A = In, B = In)"]
+    for i in range(n):
+        prev = "In" if i == 0 else "L%d" % (i - 1)
+        tpl = DEEP_LINKS[use[(i * 7 + n) % len(use)]]
+        lines.append("L%d = %s" % (i, tpl % ((prev,) * tpl.count("%s"))))
+    body = lines[:]
+    if case["order"] == "reversed":
+        body = body[::-1]
+    elif case["order"] == "shuffled":
+        random.Random(n).shuffle(body)  # a fixed permutation per length
+    tmp = tempfile.mkdtemp(prefix="vcheck-c02-")
+    try:
+        with open(os.path.join(tmp, "input.csv"), "w") as f:
+            f.write("a\n0.5\n-9999\n3\n-1.25\n")
+        rec.label("deep:%s:%s" % (case["links"], case["order"]))
+        rec.nontrivial_case(case)
+        sig = "deep|%s|%s" % (case["links"], case["order"])
+        try:
+            prog = load_and_run("\n".join(body), tmp)
+        except Exception as exc:
+            return [Failure(sig + "|raises:%s" % A.exc_name(exc), "%d commands: %s" % (n, sstr(exc)[:200]))]
+        want = prog.commands["In"].result
+        for name in ("L%d" % (n - 1), "L%d" % (n // 2), "L0"):
+            got = prog.commands[name].result
+            if not (isinstance(got, numpy.ndarray) and U.result_equal(got, want, 0.0)):
+                return [Failure(sig + "|value", "%s = %r, the column read is %r" % (name, got, want))]
+        return []
+    finally:
+        shutil.rmtree(tmp, ignore_errors=True)
+
+
+PARTS = {"model": check_model, "deep": check_deep}
 
 
 def run_shard(ctx, rec):
     drive(ctx, rec, "model", model_cases(), check_model, ctx.n(2000, 60000))
+    # a slice dense in the commands that weigh their inputs (a zero weight must not hide an input's missing cells)
+    drive(ctx, rec, "model", model_cases(["CvtToFuzzy", "FuzzyWeightedUnion", "WeightedSum", "WeightedMean", "FuzzyNot", "Copy"]), check_model,
+          ctx.n(500, 10000), tag="model/weighted")
+    drive_enum(ctx, rec, "deep", deep_cases(ctx), check_deep, exhaustive=True)
